@@ -103,6 +103,7 @@ type CalcCall struct {
 	Entry  otter.Entry[int, int]
 	Clock  int64
 	Thread int
+	At     int64 // harness stamp (orders calculator calls against loader entry/exit stamps)
 }
 
 type LoadCall struct {
@@ -284,7 +285,7 @@ func NewRig(cfg CacheCfg, x *Exec) *Rig {
 			if t, ok := r.rttl[vsched.CurID()]; ok && t != 0 && strings.HasPrefix(hook, "r") {
 				dd = t
 			}
-			r.Calcs = append(r.Calcs, CalcCall{Hook: hook, Key: e.Key, Val: e.Value, D: dd, Entry: e, Clock: r.Clock.now, Thread: vsched.CurID()})
+			r.Calcs = append(r.Calcs, CalcCall{Hook: hook, Key: e.Key, Val: e.Value, D: dd, Entry: e, Clock: r.Clock.now, Thread: vsched.CurID(), At: r.now()})
 			return time.Duration(dd)
 		}
 	}
@@ -338,7 +339,7 @@ func (c *customExpiry) pick(hook string, e otter.Entry[int, int], def int64) tim
 	if t, ok := c.r.ttl[vsched.CurID()]; ok && t != 0 {
 		d = t
 	}
-	c.r.Calcs = append(c.r.Calcs, CalcCall{Hook: hook, Key: e.Key, Val: e.Value, D: d, Entry: e, Clock: c.r.Clock.now, Thread: vsched.CurID()})
+	c.r.Calcs = append(c.r.Calcs, CalcCall{Hook: hook, Key: e.Key, Val: e.Value, D: d, Entry: e, Clock: c.r.Clock.now, Thread: vsched.CurID(), At: c.r.now()})
 	return time.Duration(d)
 }
 func (c *customExpiry) ExpireAfterCreate(e otter.Entry[int, int]) time.Duration {
@@ -435,7 +436,7 @@ func (l *rigLoader) Reload(ctx context.Context, key int, old int) (int, error) {
 	return l.produce(key, "reload", old)
 }
 
-// bulk loader: shape = full | partial (drops the largest asked key) | extra (adds key 9) | empty | err | nf | panic
+// bulk loader: shape = full | partial (drops the largest asked key) | extra (adds key 9) | empty | err | errextra | errpartial | nf | panic
 type rigBulkLoader struct {
 	r     *Rig
 	shape string
@@ -469,6 +470,12 @@ func (l *rigBulkLoader) produce(kind string, keys []int, olds []int) (map[int]in
 		}
 	case "extra":
 		out[9] = mkVal(l.id+9, l.w)
+	case "extra=1", "extra=2", "extra=3":
+		// volunteers a key that the caller may have asked for but that this call was not asked to load
+		ek := atoi(l.shape[6:])
+		if _, asked := out[ek]; !asked {
+			out[ek] = mkVal(l.id+ek, l.w)
+		}
 	case "partialextra":
 		if len(sorted) > 0 {
 			delete(out, sorted[len(sorted)-1])
@@ -479,6 +486,20 @@ func (l *rigBulkLoader) produce(kind string, keys []int, olds []int) (map[int]in
 	case "err":
 		lc.Err = "loaderr"
 		return nil, errLoad
+	case "errextra", "errpartial":
+		// a failing loader that also hands back a map (with a volunteered key / without the largest asked key):
+		// the failure decides, nothing it returned may be cached
+		if l.shape == "errextra" {
+			out[9] = mkVal(l.id+9, l.w)
+		} else if len(sorted) > 0 {
+			delete(out, sorted[len(sorted)-1])
+		}
+		lc.Err = "loaderr"
+		lc.Out = map[int]int{}
+		for k, v := range out {
+			lc.Out[k] = v
+		}
+		return out, errLoad
 	case "nf":
 		lc.Err = "notfound"
 		return nil, otter.ErrNotFound
